@@ -798,6 +798,16 @@ func (o *out) int(name string, e ast.Expr, files pkgFiles, doc string) {
 	}
 	fmt.Fprintf(&o.b, "/-- %s -/\ndef %s : Option Int := some (%d)\n\n", doc, name, v)
 }
+// strConst prints a string constant of the package (a basic literal) or "<not found>"
+func (o *out) strConst(name string, e ast.Expr, doc string) {
+	v := "<not found>"
+	if bl, ok := e.(*ast.BasicLit); ok && bl.Kind == token.STRING {
+		if u, err := strconv.Unquote(bl.Value); err == nil {
+			v = u
+		}
+	}
+	o.str(name, v, doc)
+}
 func (o *out) str(name string, s string, doc string) {
 	fmt.Fprintf(&o.b, "/-- %s -/\ndef %s : String := %s\n\n", doc, name, leanStr(s))
 }
@@ -830,6 +840,15 @@ func main() {
 	o.strs("appendKeyEscapedCases", caseLists(findFunc(tally, "", "appendKeyEscaped")), "key_gen.go: bytes escaped by appendKeyEscaped")
 	o.strs("keyWriterCalls", plainCalls(findFunc(tally, "", "keyForPrefixedStringMapsAsKey")), "key_gen.go: calls in the key writer")
 	o.strs("insertionSortComparisons", comparisons(findFunc(tally, "", "insertionSort")), "comparisons in insertionSort")
+
+	// version.go, scope_registry.go: the library's own cardinality gauges
+	o.strConst("tallyVersion", constValue(tally, "Version"), "version.go: Version")
+	o.strConst("counterCardinalityName", constValue(tally, "counterCardinalityName"), "scope_registry.go")
+	o.strConst("gaugeCardinalityName", constValue(tally, "gaugeCardinalityName"), "scope_registry.go")
+	o.strConst("histogramCardinalityName", constValue(tally, "histogramCardinalityName"), "scope_registry.go")
+	o.strConst("scopeCardinalityName", constValue(tally, "scopeCardinalityName"), "scope_registry.go")
+	o.strConst("defaultTagRedactValue", constValue(tally, "DefaultTagRedactValue"), "scope_registry.go")
+	o.strs("reportInternalMetricsCalls", callsIn(findFunc(tally, "scopeRegistry", "reportInternalMetrics"), "Report"), "reportInternalMetrics: reporter calls")
 
 	// stats.go
 	o.strs("counterIncOps", syncOps(findFunc(tally, "counter", "Inc"), nil), "(*counter).Inc")
